@@ -735,6 +735,34 @@ def bdsk_json_case(item, combo, geo=None):
             pass  # an event on the implementation's own equidistant grid: side undetermined (see eval_case)
         elif const is not None and not any(close(got - const, a) for a in acc):
             bad.append(("json_value", f"BDSKModel() = {got!r}; master equations give {acc} (+ constant {const:.6g})"))
+    # history on the same model object: every named parameter replaced in turn, the model evaluated after
+    # each replacement and compared with a model freshly built from the specification holding the new values
+    if got is not None and not bad:
+        import copy
+
+        ids = [k for k in ("R", "delta", "s", "rho", "origin", "removal") if k in dic]
+        cur = {}
+        for k in ids:
+            x = dic[k].tensor.detach().clone()
+            cur[k] = x * (0.9 if k in ("s", "rho", "removal") else 1.1)
+            try:
+                dic[k].tensor = cur[k]
+                live = float(dic["bdsk"]().reshape(-1)[0])
+                spec2, pre2 = copy.deepcopy(spec), copy.deepcopy(pre)
+                for o in [spec2] + list(spec2.values()) + pre2:
+                    if isinstance(o, dict) and o.get("id") in cur:
+                        o["tensor"] = cur[o["id"]].tolist()
+                dic2 = load_tree_and_fix_heights(tspec, labels, order, br)
+                tt.load(pre2 + [spec2], dic2)
+                fresh = float(dic2["bdsk"]().reshape(-1)[0])
+            except Exception as e:
+                bad.append(("json_history", f"after replacing {list(cur)}: {type(e).__name__}: {str(e)[:120]}"))
+                break
+            if not (abs(live - fresh) <= 1e-12 * max(1.0, abs(fresh)) or (math.isnan(live) and math.isnan(fresh))):
+                bad.append(("json_history", f"after replacing {list(cur)} in turn on one BDSKModel: model() = {live!r}, "
+                                            f"a model freshly built with the same values gives {fresh!r}; "
+                                            f"spec {jdump(spec)}"))
+                break
     return bad, sig, 1
 
 
